@@ -1,7 +1,7 @@
 #!/bin/bash
 # run every claimed check (quick by default) and print one line per property
 tier=${1:-quick}
-cd /verif
+cd "$(dirname "$0")/.."
 for p in $(python3 -c "import json;print(' '.join(c['property_id'] for c in json.load(open('MANIFEST.json'))['checks']))"); do
   s=$(date +%s); ./check $p $tier > build/all_$p.out 2>&1; rc=$?; e=$(date +%s)
   echo "$p rc=$rc $((e-s))s $(grep -c '^VIOLATION' build/all_$p.out) viol $(grep -c '^KNOWN-FINDING' build/all_$p.out) known"
